@@ -90,6 +90,9 @@ pub trait Shapes {
     fn s_two_slices(&mut self, a: &[u8], b: &[u8]) -> i64;
     fn s_opt_then_slice(&mut self, o: Option<u64>, s: &[u64], t: &str) -> u64;
     fn s_two_mut(&mut self, a: &mut [u8], b: &mut u32) -> usize;
+    /// two converted arguments of the same shape and type: each must arrive in its own position
+    fn s_two_opts(&mut self, lo: Option<u64>, hi: Option<u64>) -> u64;
+    fn s_two_into(&mut self, a: impl Into<u64>, b: impl Into<u64>) -> u64;
     /// slices of a zero-sized element type: only address and length cross
     fn s_unit_slice(&mut self, v: &[Tick]) -> usize;
     fn s_ret_unit_slice(&self) -> &[Tick];
@@ -565,6 +568,17 @@ macro_rules! implementor {
                 self.core.enter("s_mut_ref", *out, &[(out as *mut u64 as usize, 1)]);
                 *out = self.core.mix(*out);
                 *out % 2 == 0
+            }
+            fn s_two_opts(&mut self, lo: Option<u64>, hi: Option<u64>) -> u64 {
+                let d = d2(lo.map(|x| x.wrapping_add(1)).unwrap_or(0), hi.map(|x| x.wrapping_mul(3).wrapping_add(7)).unwrap_or(5));
+                self.core.enter("s_two_opts", d, &[]);
+                self.core.mix(d)
+            }
+            fn s_two_into(&mut self, a: impl Into<u64>, b: impl Into<u64>) -> u64 {
+                let (a, b): (u64, u64) = (a.into(), b.into());
+                let d = d2(a, b.rotate_left(17));
+                self.core.enter("s_two_into", d, &[]);
+                self.core.mix(d)
             }
             fn s_unit_slice(&mut self, v: &[Tick]) -> usize {
                 self.core.enter("s_unit_slice", v.len() as u64, &[(v.as_ptr() as usize, v.len())]);
